@@ -1,6 +1,7 @@
 /-
-Lemmas/RelocAll.lean — relocation (C18-R1), part 5: the two statement classes (`Unmoved`, `Moved`),
-`fixAll` as a whole, and the origin / name scan.
+Lemmas/RelocAll.lean — relocation (C18-R1), part 5: the two statement classes (`Unmoved`, `Moved`), the
+per-statement step `fixFit` (`fix_addresses; fit_operand_width`) by class, `fixAll` as a whole, and the
+origin / name scan.
 -/
 import CoCoVerif.Lemmas.RelocEmit
 
@@ -86,10 +87,12 @@ def Unmoved (D : Nat) (as : List Stmt) (s : Stmt) : Prop :=
       (s.isIdx = true ∧ NumExpr D as s.pkg.additional))) ∨
   ((s.operand.kind == .relative) = false ∧ s.pkg.needsRes = false ∧ DiffExpr s.operand.value)
 
-/-- statements with an absolute reference to a label of the program: `label`, `label + k`, `label - k` -/
+/-- statements with an absolute reference to a label of the program: `label`, `label + k`, `label - k`, in a
+16-bit operand field (`FieldWide`: extended, 16-bit immediate, `[label]`, FDB; NOT `<label` or `FCB label`,
+where `fit_operand_width` accepts the value `x` and may reject `x + D`) -/
 def Moved (D : Nat) (as : List Stmt) (s : Stmt) : Prop :=
   (s.operand.kind == .relative) = false ∧ s.pkg.needsRes = false ∧
-  ((∃ t m, s.operand.value = .address t m) ∨ NumExpr D as s.operand.value)
+  ((∃ t m, s.operand.value = .address t m) ∨ NumExpr D as s.operand.value) ∧ FieldWide s
 
 section
 variable {D : Nat} {as as' : List Stmt}
@@ -110,7 +113,7 @@ theorem fixOne_unmoved (h : PW (AddrShiftI D) as as') (i : Nat) {s : Stmt} (hc :
 /-- (b, moved) the outcome of `fixOne` is the same up to moving the operand field by `D` -/
 theorem fixOne_moved (h : PW (AddrShift D) as as') (i : Nat) {s : Stmt} (hc : Moved D as s) :
     fixOne as' i s = (fixOne as i s).map (Stmt.shiftAdditional D) := by
-  obtain ⟨hk, hn, hv⟩ := hc
+  obtain ⟨hk, hn, hv, _⟩ := hc
   rcases hv with ⟨t, m, hv⟩ | ⟨l, r, op, m, k, hh, mm, nn, hv, hother, hop, hb⟩
   · exact fixOne_reloc_address h i s hk hv hn
   · rw [hv] at hb
@@ -119,7 +122,7 @@ theorem fixOne_moved (h : PW (AddrShift D) as as') (i : Nat) {s : Stmt} (hc : Mo
 /-- what a moved statement stores is a wide address value (two bytes, big endian) -/
 theorem fixOne_moved_wide (h : PW (AddrShift D) as as') (i : Nat) {s t : Stmt} (hc : Moved D as s)
     (ht : fixOne as i s = .ok t) : WideAddr D t.pkg.additional (shiftV D t.pkg.additional) := by
-  obtain ⟨hk, hn, hv⟩ := hc
+  obtain ⟨hk, hn, hv, _⟩ := hc
   rcases hv with ⟨tg, m, hv⟩ | ⟨l, r, op, m, k, hh, mm, nn, hv, hother, hop, hb⟩
   · rw [fixOne_address_eq _ _ _ hk hv hn] at ht
     unfold addrOf at ht
@@ -144,13 +147,53 @@ theorem fixOne_moved_wide (h : PW (AddrShift D) as as') (i : Nat) {s t : Stmt} (
       exact ⟨z, some 4, .extended, rfl, rfl, .inl rfl, by omega⟩
     | _ => rw [ho] at ht; cases ht
 
+/-! ### the per-statement step `fixFit` = `fixOne` then `fitWidth` -/
+
+/-- (b, unmoved) IDENTICAL outcome of `fixFit` -/
+theorem fixFit_unmoved (h : PW (AddrShiftI D) as as') (i : Nat) {s : Stmt} (hc : Unmoved D as s) :
+    fixFit as' i s = fixFit as i s := by
+  unfold fixFit
+  rw [fixOne_unmoved h i hc]
+
+/-- (b, moved) after `fixOne` the 16-bit field holds the wide address values `x`, `x + D`; `fitWidth` accepts
+both and stores them with four hex digits -/
+theorem fixFit_moved_aux (h : PW (AddrShift D) as as') (i : Nat) {s : Stmt} (hc : Moved D as s) :
+    fixFit as' i s = (fixFit as i s).map (Stmt.shiftAdditional D) ∧
+    ∀ t, fixFit as i s = .ok t → WideAddr D t.pkg.additional (shiftV D t.pkg.additional) := by
+  have h1 := fixOne_moved h i hc
+  have h2 := fun t => fixOne_moved_wide h i (t := t) hc
+  unfold fixFit
+  rw [h1]
+  cases ho : fixOne as i s with
+  | ok t =>
+    have hfw : FieldWide t := hc.2.2.2.same (fixOne_same ho)
+    obtain ⟨t1, e1, e2, hw⟩ := fitWidth_wide hfw (h2 t ho)
+    simp only [Outcome.map_ok]
+    rw [e1, e2]
+    refine ⟨rfl, ?_⟩
+    intro t' ht'
+    cases ht'
+    exact hw
+  | diag => exact ⟨rfl, fun t ht => by cases ht⟩
+  | internal => exact ⟨rfl, fun t ht => by cases ht⟩
+  | diverged => exact ⟨rfl, fun t ht => by cases ht⟩
+
+/-- (b, moved) the outcome of `fixFit` is the same up to moving the operand field by `D` -/
+theorem fixFit_moved (h : PW (AddrShift D) as as') (i : Nat) {s : Stmt} (hc : Moved D as s) :
+    fixFit as' i s = (fixFit as i s).map (Stmt.shiftAdditional D) := (fixFit_moved_aux h i hc).1
+
+/-- what a moved statement finally stores is a wide address value (two bytes, big endian) -/
+theorem fixFit_moved_wide (h : PW (AddrShift D) as as') (i : Nat) {s t : Stmt} (hc : Moved D as s)
+    (ht : fixFit as i s = .ok t) : WideAddr D t.pkg.additional (shiftV D t.pkg.additional) :=
+  (fixFit_moved_aux h i hc).2 t ht
+
 end
 
 /-! ### `fixAll` -/
 
 theorem fixAll_outRel {R : Stmt → Stmt → Prop} {as as' : List Stmt} : ∀ (l l' : List Stmt) (i : Nat),
     l'.length = l.length →
-    (∀ j s s', l[j]? = some s → l'[j]? = some s' → OutRel R (fixOne as (i + j) s) (fixOne as' (i + j) s')) →
+    (∀ j s s', l[j]? = some s → l'[j]? = some s' → OutRel R (fixFit as (i + j) s) (fixFit as' (i + j) s')) →
     OutRel (PW R) (fixAll as i l) (fixAll as' i l') := by
   intro l
   induction l with
@@ -168,10 +211,10 @@ theorem fixAll_outRel {R : Stmt → Stmt → Prop} {as as' : List Stmt} : ∀ (l
       have hrest := ih rest' (i + 1) (by simpa using hl) (fun j a b ha hb => by
         have := hall (j + 1) a b (by simpa using ha) (by simpa using hb)
         rw [show i + 1 + j = i + (j + 1) by omega]; exact this)
-      rw [fixAll, fixAll]
+      rw [fixAll_cons, fixAll_cons]
       simp only [Nat.add_zero] at h0
-      generalize fixOne as i s = o1 at h0 ⊢
-      generalize fixOne as' i s' = o1' at h0 ⊢
+      generalize fixFit as i s = o1 at h0 ⊢
+      generalize fixFit as' i s' = o1' at h0 ⊢
       generalize fixAll as (i + 1) rest = o2 at hrest ⊢
       generalize fixAll as' (i + 1) rest' = o2' at hrest ⊢
       cases h0 with
